@@ -453,6 +453,11 @@ func (f *FuncVC) equal(st *State, x, y *Val) string {
 			}
 			return eq(x.T, "0")
 		}
+		if x.T != "" && y.T != "" {
+			// function values with identity terms (contracts only: Go itself
+			// compares functions with nil only)
+			return eq(x.T, y.T)
+		}
 	}
 	f.unsup("comparison of unsupported kind")
 	n := f.sc.fresh("cmp")
